@@ -322,6 +322,10 @@ impl Scratch {
 
 impl Drop for Scratch {
     fn drop(&mut self) {
+        if std::env::var("MC_KEEP").is_ok() {
+            eprintln!("MC_KEEP: leaving {}", self.root.display());
+            return;
+        }
         let _ = std::fs::remove_dir_all(&self.root);
     }
 }
